@@ -71,7 +71,33 @@ def gen_model(rng):
         else:
             rhs = float(rng.randint(-6, 12))
         rows.append((a, sense, float(rhs)))
-    return {"n1": n1, "n2": n2, "bounds": bounds, "c": c, "c0": c0, "is_max": is_max, "rows": rows}
+    layout = "vector"
+    if n1 in (4,) and rng.random() < 0.5:
+        layout = "matrix2x2"
+    if rng.random() < 0.12:
+        # "label collision" family: one vector only; every linear form lives on ONE strided / reversed /
+        # full slice of it (VectorVariable labels slices by start:stop only, so x[::2], x[::3], x[::-1],
+        # x[:] all carry the label x[0:n] while selecting different elements)
+        layout = "collide"
+        n1, n2 = rng.choice([4, 5, 6]), 0
+        n = n1
+        bounds = [(0.0, float(rng.choice([3, 5, 10]))) for _ in range(n)]
+        steps = [2, 3, -1, 1]
+        def on_view(step, lo=-2, hi=3):
+            idx = list(range(n))[::step]
+            a = [0.0] * n
+            for j in idx:
+                a[j] = float(rng.randint(lo, hi))
+            if not any(a):
+                a[idx[0]] = 1.0
+            return a
+        c = on_view(rng.choice([2, 3]), -3, 3)
+        rows = []
+        for _ in range(rng.randint(1, 3)):
+            a = on_view(rng.choice(steps))
+            sense = rng.choice(["<=", ">=", "=="])
+            rows.append((a, sense, float(rng.randint(0, 12))))
+    return {"n1": n1, "n2": n2, "bounds": bounds, "c": c, "c0": c0, "is_max": is_max, "rows": rows, "layout": layout}
 
 
 def reference(m, method="highs"):
@@ -110,19 +136,88 @@ def reference(m, method="highs"):
 # ------------------------------------------------------------------ writing the model through the API
 
 
+def block_views(rng, x, n1):
+    """a partition of the first block's columns into VectorVariable *views* (slices, strides, reversed
+    slices, matrix rows / partial rows / columns): list of (view, column indices in view order)"""
+    from optyx.core.matrices import MatrixVariable
+
+    if isinstance(x, MatrixVariable):
+        r, c = x.rows, x.cols
+        kind = rng.choice(["rows", "cols", "partial_rows"])
+        if kind == "rows":
+            return [(x[i, :], [i * c + j for j in range(c)]) for i in range(r)]
+        if kind == "cols":
+            return [(x[:, j], [i * c + j for i in range(r)]) for j in range(c)]
+        out = []
+        for i in range(r):
+            k = rng.randint(1, c - 1) if c > 1 else 1
+            out.append((x[i, 0:k], [i * c + j for j in range(k)]))
+            if k < c:
+                out.append((x[i, k:c], [i * c + j for j in range(k, c)]))
+        return out
+    kind = rng.choice(["split", "stride", "reversed", "stride3"])
+    idx = list(range(n1))
+    if kind == "split" and n1 >= 2:
+        k = rng.randint(1, n1 - 1)
+        return [(x[0:k], idx[0:k]), (x[k:n1], idx[k:n1])]
+    if kind == "stride" and n1 >= 2:
+        return [(x[0::2], idx[0::2]), (x[1::2], idx[1::2])]
+    if kind == "stride3" and n1 >= 3:
+        return [(x[0::3], idx[0::3]), (x[1::3], idx[1::3]), (x[2::3], idx[2::3])]
+    return [(x[::-1], idx[::-1])]
+
+
+def block_elems(x):
+    from optyx.core.matrices import MatrixVariable
+
+    if isinstance(x, MatrixVariable):
+        return [v for row in x._variables for v in row]
+    return list(x)
+
+
+def write_on_single_view(rng, coeffs, x, const=0.0):
+    """the whole form on ONE slice of x whose support covers the non-zero coefficients"""
+    n = len(list(x))
+    nz = [j for j, a in enumerate(coeffs) if a != 0]
+    for step in rng.sample([2, 3, -1, 1], 4):
+        idx = list(range(n))[::step]
+        if set(nz) <= set(idx):
+            view = x[::step]
+            e = np.array([coeffs[j] for j in idx]) @ view
+            return e + const if const != 0 else e
+    raise AssertionError("no covering view")
+
+
 def write_linear(rng, coeffs, x, ys, style, const=0.0):
     """Σ coeffs·(x, ys) + const as an optyx expression in the given style"""
     from optyx.core.expressions import Constant
+    from optyx.core.matrices import MatrixVariable
 
-    n1 = len(list(x))
+    elems = block_elems(x)
+    n1 = len(elems)
     ax, ay = coeffs[:n1], coeffs[n1:]
     e = None
+    if isinstance(x, MatrixVariable) and style not in ("chain", "views"):
+        style = rng.choice(["views", "views", "chain"])
+    if style == "msum" and not (isinstance(x, MatrixVariable) and len(set(ax)) == 1):
+        style = "views"
 
     def add(term):
         nonlocal e
         e = term if e is None else e + term
 
-    if style == "lc":
+    if style == "views":
+        for view, cols in block_views(rng, x, n1):
+            ac = [ax[j] for j in cols]
+            if all(a == 0 for a in ac) and rng.random() < 0.7:
+                continue
+            if len(set(ac)) == 1 and rng.random() < 0.6:
+                add(view.sum() if ac[0] == 1 else ac[0] * view.sum())
+            else:
+                add(np.array(ac) @ view)
+    elif style == "msum":
+        add(x.sum() if ax[0] == 1 else ax[0] * x.sum())
+    elif style == "lc":
         add(np.array(ax) @ x)
     elif style == "lc_right":
         add(x @ np.array(ax))
@@ -135,7 +230,7 @@ def write_linear(rng, coeffs, x, ys, style, const=0.0):
     elif style == "scaled_vec":
         add((np.array(ax) @ (2.0 * x)) / 2.0)
     else:
-        for a, v in zip(ax, list(x)):
+        for a, v in zip(ax, elems):
             if a == 0 and rng.random() < 0.7:
                 continue
             r = rng.random()
@@ -145,7 +240,7 @@ def write_linear(rng, coeffs, x, ys, style, const=0.0):
             continue
         add(a * v)
     if e is None:
-        e = 0.0 * list(x)[0]
+        e = 0.0 * elems[0]
     if const != 0 or rng.random() < 0.2:
         e = e + const if rng.random() < 0.7 else const + e
     wrap = rng.random()
@@ -159,11 +254,15 @@ def write_linear(rng, coeffs, x, ys, style, const=0.0):
 
 
 def build_problem(rng, m):
-    from optyx import Problem, Variable, VectorVariable
+    from optyx import Problem, Variable, VectorVariable, MatrixVariable
 
     n1, n2 = m["n1"], m["n2"]
     same_vec_bounds = len(set(m["bounds"][:n1])) == 1
-    if same_vec_bounds:
+    if m.get("layout") == "matrix2x2":
+        x = MatrixVariable("A", 2, 2)
+        for v, (lb, ub) in zip(block_elems(x), m["bounds"][:n1]):
+            v.lb, v.ub = lb, ub
+    elif same_vec_bounds:
         lb, ub = m["bounds"][0]
         x = VectorVariable("x", n1, lb=lb, ub=ub)
     else:
@@ -171,8 +270,16 @@ def build_problem(rng, m):
         for v, (lb, ub) in zip(x, m["bounds"][:n1]):
             v.lb, v.ub = lb, ub
     ys = [Variable(f"y{j}", lb=m["bounds"][n1 + j][0], ub=m["bounds"][n1 + j][1]) for j in range(n2)]
-    styles = ["chain", "lc", "lc_right", "lc_shift", "sum", "scaled_vec", "chain"]
+    styles = ["chain", "lc", "lc_right", "lc_shift", "sum", "scaled_vec", "chain", "views", "views"]
+    is_matrix = m.get("layout") == "matrix2x2"
     P = Problem()
+    if m.get("layout") == "collide":
+        obj = write_on_single_view(rng, m["c"], x, const=m["c0"])
+        (P.maximize if m["is_max"] else P.minimize)(obj)
+        for a, s_, r in m["rows"]:
+            lhs = write_on_single_view(rng, a, x)
+            P.subject_to((lhs <= r) if s_ == "<=" else (lhs >= r) if s_ == ">=" else lhs.eq(r))
+        return P, x, ys, ["collide"] * (1 + len(m["rows"]))
     obj = write_linear(rng, m["c"], x, ys, rng.choice(styles), const=m["c0"])
     (P.maximize if m["is_max"] else P.minimize)(obj)
     used_styles = []
@@ -184,7 +291,7 @@ def build_problem(rng, m):
         j = i
         while (j < len(rows) and rows[j][1] == s and all(v == 0 for v in rows[j][0][n1:])):
             j += 1
-        if j - i >= 2 and rng.random() < 0.6:
+        if j - i >= 2 and rng.random() < 0.6 and not is_matrix:
             A = np.array([rw[0][:n1] for rw in rows[i:j]])
             b = np.array([rw[2] for rw in rows[i:j]])
             lhs = A @ x
@@ -375,7 +482,30 @@ def run(ctx) -> core.Report:
         methods = METHODS if (thorough or i % 3 == 0) else [rng.choice(METHODS), "auto"]
         check_model(rng, m, rep, lines, metas, methods)
     compare_lean(rep, lines, metas)
+    known_matrix_sum(rep)
     return rep
+
+
+def known_matrix_sum(rep):
+    """F26 (KNOWN_FINDINGS.json): a linear model written with MatrixVariable.sum() is not recognised as
+    linear (degree of MatrixSum is None): `auto` solves it with an NLP method, explicit LP methods raise."""
+    from optyx import MatrixVariable, Problem
+    from optyx.core.errors import NonLinearError
+
+    A = MatrixVariable("A", 2, 2, lb=0, ub=3)
+    P = Problem().maximize(A.sum()).subject_to(A[0, :].sum() <= 4)
+    try:
+        with warnings.catch_warnings():
+            warnings.simplefilter("ignore")
+            s = P.solve(method="linprog")
+        ok = s.status.name == "OPTIMAL" and abs(s.objective_value - 10.0) <= 1e-7 * 11
+    except NonLinearError:
+        ok = False
+    rep.evaluations += 1
+    if not ok:
+        rep.oracle_failures.append({"kind": "matrix_sum_not_linear",
+                                    "what": "maximize A.sum() s.t. A[0,:].sum() <= 4, 0 <= A <= 3 with method='linprog' "
+                                            "raises NonLinearError / is not solved as an LP (reference: OPTIMAL, 10)"})
 
 
 def search(ctx, rep):
